@@ -80,6 +80,9 @@ type part struct {
 }
 type dsv struct {
 	Id    string `json:"id"`
+	Dim   int    `json:"dim"`
+	Space int    `json:"space"`
+	Repl  int    `json:"repl"`
 	Parts []part `json:"parts"`
 }
 
@@ -90,7 +93,7 @@ func (m *mgr) view(ids []uuid.UUID) []dsv {
 		if err != nil {
 			continue
 		}
-		v := dsv{Id: id.String()[:8], Parts: []part{}}
+		v := dsv{Id: id.String()[:8], Dim: int(ds.Meta().GetDimension()), Space: int(ds.Meta().GetSpace()), Repl: int(ds.Meta().GetReplicationFactor()), Parts: []part{}}
 		for _, p := range ds.Meta().GetPartitions() {
 			pid, _ := uuid.FromBytes(p.GetId())
 			ns := []int{}
@@ -141,7 +144,7 @@ func main() {
 			case x < 3 || len(dss) == 0:
 				d := &dsInfo{id: uuid.NewV4(), alive: true}
 				np := 1 + rng.Intn(3)
-				meta := &pb.Dataset{Id: d.id.Bytes(), Dimension: 2, Space: pb.Space_Euclidean, PartitionCount: uint32(np), ReplicationFactor: 3}
+				meta := &pb.Dataset{Id: d.id.Bytes(), Dimension: uint32(2 + rng.Intn(3)), Space: pb.Space(rng.Intn(3)), PartitionCount: uint32(np), ReplicationFactor: 3}
 				for i := 0; i < np; i++ {
 					pid := uuid.NewV4()
 					d.parts = append(d.parts, pid)
